@@ -612,16 +612,16 @@ pub fn property() -> Property {
             prop_sub(
                 "several_connections",
                 "0..4 connections of one runner, each suspended waiting for input (nothing received yet, or part of a preamble), plus 0..3 tokens never run; shutdown: every connection task is woken, stops without reading and without invoking a handler; the shutdown future stays pending (and its waiter unwoken) while any token lives and completes, woken, after the last drop; non-trivial = >= 2 connections; distinct = hash of the case",
-                30_000,
-                600_000,
+                200_000,
+                4_000_000,
                 |_| boxed((proptest::collection::vec(prop_oneof![Just(0u8), 1u8..24], 0..=4), 0u8..=3).prop_map(|(conns, spare)| Multi { conns, spare })),
                 test_multi,
             ),
             prop_sub(
                 "waitgroup_windows",
                 "0..4 tokens; histories of {poll the shutdown future, drop token i}, where every poll may drop generated subsets of tokens at hook point A (after Weak::upgrade, before waker registration) and B (after registration, before the temporary Arc is released); oracle: Ready only when no token was alive, Pending otherwise, and once the last token is gone a Pending future has been woken; non-trivial = the last token was dropped inside a poll window; distinct = hash of the case",
-                200_000,
-                5_000_000,
+                1_000_000,
+                20_000_000,
                 |_| boxed((0u8..=4, proptest::collection::vec(wop(), 0..8)).prop_map(|(tokens, ops)| HookCase { tokens, ops })),
                 test_hook,
             ),
